@@ -257,7 +257,7 @@ def _join(t, log):
     end = real_time.monotonic() + 5
     while True:
         try:
-            t.join(60)
+            t.join(600)          # generous: a 65538-block transfer on a loaded machine
             break
         except RuntimeError:              # created, not yet started
             if real_time.monotonic() > end:
